@@ -10,9 +10,11 @@ def perm(rng, alts):
     return l
 
 
-def alt_ids(rng, m, style=None):
-    """m distinct positive ids: 1..m, shifted, or sparse/multi-digit."""
-    style = style or rng.choice(["1m", "1m", "shift", "sparse"])
+def alt_ids(rng, m, style=None, zero_ok=False):
+    """m distinct positive ids: 1..m, shifted, or sparse/multi-digit (with zero_ok: sometimes 0..m-1)."""
+    style = style or rng.choice(["1m", "1m", "shift", "sparse"] + (["0m"] if zero_ok else []))
+    if style == "0m":
+        return list(range(0, m))
     if style == "1m":
         return list(range(1, m + 1))
     if style == "shift":
